@@ -65,6 +65,10 @@ func main() {
 	for i := 0; i < nCrash; i++ {
 		jobs = append(jobs, job{"crash", i, false})
 	}
+	nFault := c.Pick(12, 240) // a file-system operation of a flush fails, the node keeps running
+	for i := 0; i < nFault; i++ {
+		jobs = append(jobs, job{"fault", i, false})
+	}
 	scratch := c.Scratch()
 	results := make([]*caseResult, len(jobs))
 	raceOut := make([]string, len(jobs))
